@@ -890,7 +890,25 @@ def natural_breaks_cases(draw, max_side, dtypes=DTYPES6):
 def natural_breaks_nonf32_cases(draw, max_side):
     dtype = draw(st.sampled_from(["float64", "float64", "int64", "float64", "int32"]))
     h, w = draw(shape(max_side))
-    if dtype == "float64":
+    if dtype == "float64" and draw(st.sampled_from([False, False, True])):
+        # near-tie: an arithmetic progression (several partitions of equal cost) with one value moved by a relative 1e-6..1e-8,
+        # so that the best partition beats the runner-up by less than single precision resolves (costs kept in float32 would
+        # pick the wrong one) but far more than the float64 forward bound
+        m = draw(st.sampled_from([3, 4, 5, 6, 7, 9, 12]))
+        start = draw(st.sampled_from([0.0, 1.0, -2.5, 10.0]))
+        step = draw(st.sampled_from([1.0, 0.5, 2.0, 0.1]))
+        eps = draw(st.sampled_from([1e-7, -1e-7, 3e-8, -3e-8, 1e-6, -1e-6, 1e-8]))
+        j = draw(st.integers(0, m - 1))
+        pool = [start + i * step for i in range(m)]
+        pool[j] += step * eps
+        # every value exactly once (equal multiplicities keep the near-symmetry), in a drawn order, optionally one NaN cell
+        row = list(draw(st.permutations(pool))) + (["nan"] if draw(st.sampled_from([False, True])) else [])
+        k = draw(st.sampled_from([2, 3, 2, 4, 5, 6]))
+        case = {"sub": "natural_breaks", "pal": "near_tie", "raster": {"dtype": "float64", "data": [row]}, "k": min(k, m - 1)}
+        if draw(st.sampled_from([False, True])):
+            case["num_sample"] = None
+        return case
+    elif dtype == "float64":
         kind, pool = draw(value_pool(dtype, kinds=["nonf32", "dec3", "off6", "nonf32big", "off6wide", "dec3"]))
         specials = ["nan", "inf", "nan", "-inf"]
     else:
